@@ -411,6 +411,122 @@ theorem sync_converges_partial (H : Hasher) (vs : ValueStream) (depth limit : Na
     simp only [get_projBucket, beq_self_eq_true, if_true] at this
     exact this
 
+/-! ## the message protocol: request with a bucket list, response, merge -/
+
+theorem mem_iter {π : List Nat} {s : NMap RV} {q : Nat × RV} (h : q ∈ iter π s) : NMap.get s q.1 = some q.2 := by
+  unfold iter at h
+  rw [List.mem_filterMap] at h
+  obtain ⟨k, _, hk⟩ := h
+  cases hg : NMap.get s k with
+  | none => rw [hg] at hk; simp at hk
+  | some v => rw [hg] at hk; simp at hk; subst hk; exact hg
+
+/-- **C18 (a response stays inside the request)**: every delta of `handle_sync_request` for a
+    bucket request is an entry of the responder's state whose key lies in a requested bucket —
+    whichever way filter and limit are ordered, for every iteration order and limit -/
+theorem response_keys_in_requested_buckets (ord : RespOrder) (H : Hasher) (vs : ValueStream)
+    (depth limit : Nat) (π : List Nat) (s : NMap RV) (buckets : List Nat) (q : Nat × RV)
+    (h : q ∈ responseKeysWith ord H vs depth limit π s (some buckets)) :
+    buckets.contains (H.key q.1 % 2 ^ depth) = true ∧ NMap.get s q.1 = some q.2 := by
+  cases ord <;> simp only [responseKeysWith] at h
+  · have h1 := List.mem_of_mem_take h
+    rw [List.mem_filter] at h1
+    exact ⟨h1.2, mem_iter h1.1⟩
+  · rw [List.mem_filter] at h
+    exact ⟨h.2, mem_iter (List.mem_of_mem_take h.1)⟩
+
+/-- when the responder holds at most `limit` keys in the requested buckets, the response delivers
+    ALL of them (as a lookup table: every key of a requested bucket with the responder's value,
+    nothing else) -/
+def C18_response_exact (ord : RespOrder) : Prop :=
+  ∀ (H : Hasher) (vs : ValueStream) (depth limit : Nat) (π : List Nat) (s : NMap RV) (buckets : List Nat),
+    NMap.WF s → ValidOrder π s → (candidates H depth π s buckets).length ≤ limit →
+    ∀ k, (responseKeysWith ord H vs depth limit π s (some buckets)).lookup k
+      = if buckets.contains (H.key k % 2 ^ depth) then NMap.get s k else none
+
+/-- **C18 (response exact under the limit)** — the code as it is (filter, then take), for every
+    iteration order -/
+theorem response_exact_when_under_limit : C18_response_exact .filterThenTake := by
+  intro H vs depth limit π s buckets hs hπ hl k
+  have : responseKeysWith .filterThenTake H vs depth limit π s (some buckets)
+      = getKeysInBuckets H vs depth limit π s buckets := rfl
+  rw [this, getKeysInBuckets_full hl, lookup_candidates buckets hs hπ k]
+
+/-- … and as a list: the response is exactly the candidate list (no key dropped, none added) -/
+theorem response_is_candidates_when_under_limit (H : Hasher) (vs : ValueStream) (depth limit : Nat)
+    (π : List Nat) (s : NMap RV) (buckets : List Nat)
+    (hl : (candidates H depth π s buckets).length ≤ limit) :
+    responseKeysWith .filterThenTake H vs depth limit π s (some buckets) = candidates H depth π s buckets :=
+  getKeysInBuckets_full hl
+
+/-- a full-state request (`requested_buckets = None`) to a responder with at most `limit` keys
+    returns its whole state -/
+theorem response_full_exact_when_under_limit (ord : RespOrder) (H : Hasher) (vs : ValueStream)
+    (depth limit : Nat) (π : List Nat) (s : NMap RV) (hs : NMap.WF s) (hπ : ValidOrder π s)
+    (hl : s.length ≤ limit) (k : Nat) :
+    (responseKeysWith ord H vs depth limit π s none).lookup k = NMap.get s k := by
+  have hlen : (iter π s).length ≤ limit := by rw [(iter_valid_perm hs hπ).length_eq]; exact hl
+  simp only [responseKeysWith]
+  rw [List.take_of_length_le hlen, lookup_iter hs hπ]
+
+/-- twelve keys `1..12` in iteration order, depth 2 (bucket = key mod 4), limit 4: bucket 3 holds
+    the three keys 3, 7, 11 -/
+def exTwelve : NMap RV := (List.range 12).map fun i => (i + 1, RV.withValue [] ⟨0, 0⟩)
+
+/-- **take-before-filter loses keys** (the seeded defect class): the limit is applied to the map
+    iteration instead of the answer, so although only 3 ≤ 4 keys are requested, the two that
+    iterate after position 4 are never sent — in this and in every later round. -/
+theorem response_take_then_filter_counterexample : ¬ C18_response_exact .takeThenFilter := by
+  intro h
+  have := h idealH canonicalStream 2 4 (NMap.keys exTwelve) exTwelve [3] (by decide) (by decide) (by decide) 7
+  revert this
+  decide
+
+theorem response_take_then_filter_witness :
+    (candidates idealH 2 (NMap.keys exTwelve) exTwelve [3]).map (·.1) = [3, 7, 11]
+    ∧ (responseKeysWith .filterThenTake idealH canonicalStream 2 4 (NMap.keys exTwelve) exTwelve (some [3])).map (·.1) = [3, 7, 11]
+    ∧ (responseKeysWith .takeThenFilter idealH canonicalStream 2 4 (NMap.keys exTwelve) exTwelve (some [3])).map (·.1) = [3] := by
+  decide
+
+/-- **C18 (one pull merges)**: when the digests differ and the peer holds at most `limit` keys in
+    the divergent buckets, after `process_peer_digest → create_sync_request(Some(divergent)) →
+    handle_sync_request → merge` the requester holds `merge(own, peer's)` for every key of every
+    requested bucket and is unchanged elsewhere — for every pair of iteration orders. -/
+theorem sync_round_merges (H : Hasher) (sb : Bool) (vs : ValueStream) (depth limit : Nat)
+    (πr πp : List Nat) (r p : NMap RV) (hp : NMap.WF p) (hπp : ValidOrder πp p)
+    (hd : differsFrom (fromState H sb vs depth πr r) (fromState H sb vs depth πp p) = true)
+    (hl : (candidates H depth πp p (divergentBuckets (fromState H sb vs depth πr r) (fromState H sb vs depth πp p))).length ≤ limit)
+    (k : Nat) :
+    NMap.get (pullWith .filterThenTake H sb vs depth limit false πr πp r p).2.2.2 k
+      = if (divergentBuckets (fromState H sb vs depth πr r) (fromState H sb vs depth πp p)).contains (H.key k % 2 ^ depth)
+        then optMerge RV.merge (NMap.get r k) (NMap.get p k) else NMap.get r k := by
+  unfold pullWith
+  simp only [hd, if_true, Bool.false_eq_true, if_false]
+  rw [response_is_candidates_when_under_limit H vs depth limit πp p _ hl]
+  exact get_apply_candidates _ hp hπp k
+
+/-- a full-state pull from a peer with at most `limit` keys merges the peer's whole state -/
+theorem sync_round_merges_full (H : Hasher) (sb : Bool) (vs : ValueStream) (depth limit : Nat)
+    (πr πp : List Nat) (r p : NMap RV) (hp : NMap.WF p) (hπp : ValidOrder πp p)
+    (hd : differsFrom (fromState H sb vs depth πr r) (fromState H sb vs depth πp p) = true)
+    (hl : p.length ≤ limit) (k : Nat) :
+    NMap.get (pullWith .filterThenTake H sb vs depth limit true πr πp r p).2.2.2 k
+      = optMerge RV.merge (NMap.get r k) (NMap.get p k) := by
+  unfold pullWith
+  simp only [hd, if_true]
+  have hlen : (iter πp p).length ≤ limit := by rw [(iter_valid_perm hp hπp).length_eq]; exact hl
+  simp only [responseKeysWith]
+  rw [List.take_of_length_le hlen, get_applyDeltas _ _ _ (iter_keys_nodup hp hπp), lookup_iter hp hπp]
+  cases h1 : NMap.get p k <;> cases h2 : NMap.get r k <;> simp [optMerge, mergeInto]
+
+/-- no digest difference, no exchange -/
+theorem pull_noop_when_in_sync (ord : RespOrder) (H : Hasher) (sb : Bool) (vs : ValueStream)
+    (depth limit : Nat) (full : Bool) (πr πp : List Nat) (r p : NMap RV)
+    (hd : differsFrom (fromState H sb vs depth πr r) (fromState H sb vs depth πp p) = false) :
+    (pullWith ord H sb vs depth limit full πr πp r p).2.2.2 = r := by
+  unfold pullWith
+  simp [hd]
+
 /-! ## termination under a per-round limit -/
 
 def exX : RV := RV.withValue [] ⟨0, 0⟩
